@@ -440,6 +440,8 @@ _shm_mod.SharedMemory = SharedMemory
 
 
 def _sleep(x):
+    # the monitoring loop's clock: exit codes of processes with a delayed `visible_at` appear only after enough polls
+    MP["clock"] = MP.get("clock", 0) + 1
     return None
 
 
@@ -451,7 +453,11 @@ class _Gc:
 
 # ---- fake multiprocessing (spawn context): synchronous processes, picklability enforced, scripted queue delivery ----
 import pickle as _pickle
-MP = {"assign": None, "exitcodes": {}, "events": [], "procs": []}
+MP = {"assign": None, "exitcodes": {}, "events": [], "procs": [], "clock": 0}
+
+
+class ShimHang(BaseException):
+    """the modelled program would block forever (e.g. join() on a producer stuck on a full queue nobody reads)"""
 
 
 class FakeQueue:
@@ -459,6 +465,7 @@ class FakeQueue:
         self.items = []
         self.closed = False
         self.delivered = set()
+        self.maxsize = maxsize
 
     def put(self, x):
         if self.closed:
@@ -503,10 +510,37 @@ def _queue_by_id(i):
 class FakeProcess:
     def __init__(self, target=None, args=(), kwargs=None):
         self.target, self.args, self.kwargs = target, args, kwargs or {}
-        self.exitcode = None
+        self._exitcode = None
+        self.visible_at = 0      # how many times the parent finds the process still running before its exit status shows
+        self._polls = 0
+        self.joined = False
         self.started = False
         self.killed = False
         MP["procs"].append(self)
+
+    def _blocked(self):
+        """the queue filler is still inside put(): what it produced beyond the queue's capacity has not been taken out
+        (the synchronous model has already run every started consumer to its end, so the backlog is final)"""
+        if getattr(self.target, "__name__", "") != "_fill_queue" or MP.get("assign") is None:
+            return False
+        q = self.args[0]
+        return bool(getattr(q, "maxsize", 0)) and len(q.items) - len(q.delivered) > q.maxsize
+
+    @property
+    def exitcode(self):
+        if self._exitcode is None or self.joined or self.killed:
+            return self._exitcode
+        if self._blocked():
+            return None
+        # a process that finishes late: the first `visible_at` looks at its exit status still find it running
+        if self._polls < self.visible_at:
+            self._polls += 1
+            return None
+        return self._exitcode
+
+    @exitcode.setter
+    def exitcode(self, v):
+        self._exitcode = v
 
     def start(self):
         # the spawn start method pickles the Process arguments: enforce that contract
@@ -528,7 +562,7 @@ class FakeProcess:
             self.target(*self.args, **self.kwargs)
             self.exitcode = 0
         except BaseException as e:  # a crashed child has a non-zero exit code
-            if type(e).__name__ in ("IgnoreAttempt", "UnexploredPath", "CrossHairInternal", "NotDeterministic", "PathTimeout"):
+            if type(e).__name__ in ("IgnoreAttempt", "UnexploredPath", "CrossHairInternal", "NotDeterministic", "PathTimeout", "ShimHang"):
                 raise
             self.exitcode = 1
             self.error = e
@@ -536,13 +570,17 @@ class FakeProcess:
             MP["current"] = prev
 
     def join(self, timeout=None):
-        if self.exitcode is None and not self.killed:
+        if self._exitcode is None and not self.killed:
             self.run_now()
+        if not self.killed and self._blocked():
+            q = self.args[0]
+            raise ShimHang(f"join() on the queue filler: {len(q.items) - len(q.delivered)} entries unconsumed, capacity {q.maxsize}, no consumer left")
+        self.joined = True
 
     def kill(self):
         self.killed = True
-        if self.exitcode is None:
-            self.exitcode = -9
+        if self._exitcode is None:
+            self._exitcode = -9
 
 
 class FakeContext:
